@@ -29,13 +29,22 @@ def tuple_from_normalize(f, d, rv):
     if not (rv["k"] == "agg" and rv.get("agg") == "tuple" and len(rv["ops"]) == 2):
         return False, "not a pair"
     srcs = []
+    PT = ("Clone>::clone", "From<alloc::string::String>>::from", "Arc::<T>::new", "::from", "::into")
     for o in rv["ops"]:
-        oo = d.origin_op(o, ("Clone>::clone", "From<alloc::string::String>>::from", "Arc::<T>::new", "::from", "::into"))
-        base = oo
-        prs = []
-        while base.get("k") == "field":
-            prs = [e.get("f") for e in base["proj"] if isinstance(e, dict)] + prs
-            base = base["base"]
+        oo = d.origin_op(o, PT)
+        for _ in range(4):
+            base = oo
+            prs = []
+            while base.get("k") == "field":
+                prs = [e.get("f") for e in base["proj"] if isinstance(e, dict)] + prs
+                base = base["base"]
+            # a field of a struct literal (e.g. a `NormalizedText { text, line_map }` helper value): continue with
+            # the operand that initialises that field
+            if base.get("k") == "agg" and base["rv"].get("agg") == "adt" and len(prs) >= 1 and isinstance(prs[0], int) and \
+                    prs[0] < len(base["rv"].get("ops", [])) and len(prs) == 1:
+                oo = d.origin_op(base["rv"]["ops"][prs[0]], PT)
+                continue
+            break
         srcs.append((callee(base["t"]) if base.get("k") == "call" else base.get("k"), base.get("bb"), tuple(prs)))
     ok = srcs[0][0] == "glas::vfs::LineMap::normalize" and srcs[1][0] == "glas::vfs::LineMap::normalize" and \
         srcs[0][1] == srcs[1][1] and srcs[0][2] == (0,) and srcs[1][2] == (1,)
@@ -146,7 +155,7 @@ def run(F, res, tier):
         rets = f.return_blocks()
         okr = bool(recs)
         for b, t in recs:
-            o = d.origin_op(t["args"][2], ("Clone>::clone",))
+            o = FL.origin_deep(d, t["args"][2], ("Clone>::clone",))
             base = o
             while base.get("k") == "field":
                 base = base["base"]
@@ -171,7 +180,11 @@ def run(F, res, tier):
             okd = False
     res.ob("D5", "load_package_files/skip-known-files", "files read from disk while loading a package are stored only if the Vfs does not have them yet "
            "(the document the client just opened is never replaced by its on-disk content)", okd, where=lp.loc(), how="set_path_content sites %d, all guarded: %s" % (len(sets), okd))
-    wf = F.fn(S + "on_did_change_watched_files")
+    # with the helpers that only this handler calls inlined (the per-event body may be a method of its own)
+    from lib import inline as IL
+    wf0 = F.fn(S + "on_did_change_watched_files")
+    wf = IL.inlined(F, wf0, want=lambda p: p.startswith("glas::server::") and p != S + "set_vfs_file_content" and
+                    {f_.path for f_, b_, t_ in F.callers_of(lambda c, p=p: c == p)} <= set(F.with_closures(wf0.path)), depth=1)
     dw = FL.Defs(wf)
     sv = [b for b, t in wf.calls() if callee(t) == S + "set_vfs_file_content"]
     okw = bool(sv)
